@@ -1,22 +1,21 @@
 #!/bin/bash
-# Applies a patch to /repo, runs the given checks, and restores /repo.
+# Applies a patch to a tree of ory/keto, runs the given checks on it, and restores the tree.
 #   usage: mut.sh <patch.diff> <PROP> [<PROP> ...]
-# /repo must be clean (contracts committed) before calling.
+# The tree is $VERIF_REPO (default /repo; it must be clean, contracts committed). Evidence and
+# replay files of the mutant run go to a scratch directory, never to /verif/evidence.
 set -u
 patch="$1"; shift
-if [ -n "$(git -C /repo status --porcelain)" ]; then echo "mut.sh: /repo is not clean"; exit 2; fi
-git -C /repo apply "$patch" || { echo "mut.sh: patch does not apply"; exit 2; }
+REPO="${VERIF_REPO:-/repo}"
+if [ -n "$(git -C "$REPO" status --porcelain)" ]; then echo "mut.sh: $REPO is not clean"; exit 2; fi
+git -C "$REPO" apply "$patch" || { echo "mut.sh: patch does not apply"; exit 2; }
 rc=0
-# evidence/ and replay/ describe the unchanged tree: keep them out of mutant runs
 sav=$(mktemp -d /var/tmp/verif-mut.XXXXXX)
-cp -a /verif/evidence "$sav/evidence"; [ -d /verif/replay ] && cp -a /verif/replay "$sav/replay"
 for p in "$@"; do
-  out=$(/verif/check "$p" 2>&1); r=$?
+  out=$(VERIF_REPO="$REPO" VERIF_EVIDENCE_DIR="$sav/evidence" VERIF_REPLAY_DIR="$sav/replay" /verif/check "$p" 2>&1); r=$?
   echo "$out" | grep -E "^(VIOLATION|TOOL-ERROR|KNOWN-FINDING|property=)" | cut -c1-260
   echo "== $p exit=$r"
   [ $r -ne 0 ] && rc=$r
 done
-git -C /repo checkout -- . ; git -C /repo clean -fdq -- . 2>/dev/null
-rm -rf /verif/evidence /verif/replay; mv "$sav/evidence" /verif/evidence; [ -d "$sav/replay" ] && mv "$sav/replay" /verif/replay
+git -C "$REPO" checkout -- . ; git -C "$REPO" clean -fdq -- . 2>/dev/null
 rm -rf "$sav"
 exit $rc
